@@ -4,6 +4,7 @@ import (
 	"context"
 	"encoding/json"
 	"fmt"
+	"os"
 	"runtime"
 	"strings"
 	"sync"
@@ -130,13 +131,18 @@ func (e *Env) Addrs() []string { return e.Cluster.ListenAddrs() }
 // BaseOpts returns client options common to all bubble clients: virtual dialer, small
 // backoffs and metadata ages so that virtual-time bounds of a few minutes are generous.
 func (e *Env) BaseOpts() []kgo.Opt {
-	return []kgo.Opt{
+	opts := []kgo.Opt{
 		kgo.SeedBrokers(e.Addrs()...),
 		kgo.Dialer(e.Net.DialContext),
 		kgo.MetadataMinAge(50 * time.Millisecond),
 		kgo.MetadataMaxAge(2 * time.Second),
 		kgo.RetryBackoffFn(func(int) time.Duration { return 20 * time.Millisecond }),
 	}
+	if os.Getenv("VERIF_KGO_LOG") != "" { // debugging aid only: the client's own debug log on stderr
+		start := e.Log.start
+		opts = append(opts, kgo.WithLogger(kgo.BasicLogger(os.Stderr, kgo.LogLevelDebug, func() string { return fmt.Sprintf("[kgo t=%v] ", time.Since(start)) })))
+	}
+	return opts
 }
 
 // NewClient creates a client that is closed at teardown if the test did not close it.
